@@ -97,7 +97,7 @@ theorem c04_refine (ops : List (Op V)) (q : List String) (g : List V) :
 -- non-vacuity: a history with a front insertion, a fix that drops the bounds and a rejected float
 example : (PSet.run (PSet.empty : PSet Int)
     [.add ⟨"a", 1, some 0, some 2, none⟩ false, .add ⟨"b", 5, none, none, none⟩ true,
-     .fix [("a", .val 7)], .float [("a", (none, none, none))]]).fixedNames = ["b", "a"] := by decide
+     .fix [("a", .val 7)], .float [("a", .entry .cur .cur .cur)]]).fixedNames = ["b", "a"] := by decide
 
 /-! ## rejected edits -/
 
@@ -733,7 +733,7 @@ example : ((PSet.run (PSet.empty : PSet Int)
   decide
 example : ((PSet.run (PSet.empty : PSet Int)
     [.add ⟨"a", 1, some 0, some 2, none⟩ false, .setv "a" 0, .fix [("a", .cur)],
-     .float [("a", (none, none, none))]]).params.map (fun p => (p.initial, p.value, p.isfixed))) =
+     .float [("a", .entry .cur .cur .cur)]]).params.map (fun p => (p.initial, p.value, p.isfixed))) =
     [(0, 0, false)] := by decide
 
 /-! ## Review round: the specification machine `Spec.step` and the simulation theorem -/
@@ -901,17 +901,23 @@ theorem c04_reject_fixed_change_in_set (s : PSet V) (hs : Coherent s) (p : Param
 kept) bounds is rejected as a whole and nothing changes -/
 theorem c04_reject_float_bounds_in_set (s : PSet V) (req : List (String × PSet.FloatEntry V)) (p : Param V)
     (hp : p ∈ s.params) (ini vmin vmax : Option V) (lo hi : V)
-    (hreq : dget req p.name = some (ini, vmin, vmax)) (hlo : vmin.or p.valmin = some lo)
+    (hreq : dget req p.name = some (.entry (.ofOption ini) (.ofOption vmin) (.ofOption vmax)))
+    (hlo : vmin.or p.valmin = some lo)
     (hhi : vmax.or p.valmax = some hi) (hv : ini.getD p.value < lo ∨ hi < ini.getD p.value) :
     ∃ e, s.makeParamsFloating req = (s, .error e) := by
+  have hto : ∀ x : Option V, (FixVal.ofOption x).toOption? = some x := by
+    intro x; cases x <;> rfl
   have hfp : ∃ e, PSet.floatF req p = .error e := by
     unfold PSet.floatF
     rw [hreq]
     simp only
     by_cases hf : (!p.isfixed) = true
     · exact ⟨_, by rw [if_pos hf]⟩
-    · rw [if_neg hf, c04_reject_bounds_make_floating p ini vmin vmax lo hi hlo hhi hv]
-      exact ⟨_, rfl⟩
+    · rw [if_neg hf]
+      split
+      · exact ⟨_, rfl⟩
+      · simp only [hto, c04_reject_bounds_make_floating p ini vmin vmax lo hi hlo hhi hv]
+        exact ⟨_, rfl⟩
   have hvld : ∀ ps : List (Param V), p ∈ ps → ∃ e, PSet.validate (PSet.floatF req) ps = .error e := by
     intro ps
     induction ps with
